@@ -8,6 +8,7 @@ contents) and both kinds of view buffer (`direct`: field of a struct; otherwise 
 -/
 import Emboss.Properties.C02
 import Emboss.Lemmas.ScalarWriteView
+import Emboss.Lemmas.WriteInference
 namespace Emboss.Scalar
 open Emboss.Bits Emboss.Scalar.Spec
 
@@ -115,62 +116,6 @@ theorem C03_enum_signed_narrow_counterexample :
   rw [representable_signed (ty := .enum 8 true) rfl (by decide)]
   decide
 
-/-- What `TryToWrite` stores represents the value: for every accepted value the raw pattern
-fits the field and decodes (per the documentation) to the value. -/
-theorem encode_spec (h : Placed bb o w) (direct : Bool) (ty : Ty) (hty : TypeFits ty w)
-    (hs : ∀ uw, ty = .enum uw true → w = bb.W) (t : IntT) (x : Int) (ha : ArgOk ty w t x)
-    (hc : (fieldView ty direct bb o w).couldWrite t x = true) :
-    (fieldView ty direct bb o w).encode x < 2 ^ w ∧
-    decodeSpec ty w ((fieldView ty direct bb o w).encode x) = some x := by
-  have hw64 := placed_w_le h
-  have hVW := le_leastWidth hw64
-  cases ty with
-  | uint =>
-    obtain ⟨h0, hlt⟩ := (uint_could w h.w_pos hw64 _ t x ha.1 ha.2).mp hc
-    simp only [View.encode, fieldView, View.VW, decodeSpec]
-    rw [ofInt_of_nonneg h0 (by have := pow_le_pow hVW; omega)]
-    exact ⟨by omega, by congr 1; omega⟩
-  | int =>
-    obtain ⟨hlo, hhi⟩ := (int_could w h.w_pos hw64 _ t x ha.1).mp hc
-    simp only [View.encode, fieldView, fieldBuf_W, decodeSpec]
-    rw [maskToNBits_ofInt (placed_w_le_W h)]
-    obtain ⟨he, hlt⟩ := twos_ofInt (by have := h.w_pos; omega) hlo hhi
-    exact ⟨hlt, by rw [he]⟩
-  | bcd =>
-    obtain ⟨h0, hlt⟩ := ha
-    obtain ⟨n, rfl⟩ : ∃ n : Nat, x = n := ⟨x.toNat, by omega⟩
-    simp only [View.couldWrite, fieldView, View.VW, Bool.and_eq_true, decide_eq_true_eq,
-      Int.toNat_natCast] at hc
-    obtain ⟨hl, hok, hv⟩ := (bcd_could_write (v := n) h.w_pos hw64).2 (of_decide_eq_true hc.1)
-    have he : ofInt (leastWidth w) (n : Int) = n := ofInt_natCast (by exact_mod_cast hlt)
-    simp only [View.encode, fieldView, View.VW, decodeSpec, he]
-    exact ⟨hl, by rw [if_pos hok, hv]⟩
-  | flag =>
-    simp only [TypeFits] at hty; subst hty
-    rcases ha with rfl | rfl <;> simp [View.encode, decodeSpec, fieldView]
-  | float =>
-    have h0 : 0 ≤ x := ha.1
-    have hlt : x < ((2 ^ w : Nat) : Int) := ha.2
-    simp only [View.encode, fieldView, decodeSpec]
-    rw [ofInt_of_nonneg h0 hlt]
-    exact ⟨by omega, by congr 1; omega⟩
-  | enum uw s =>
-    cases s with
-    | false =>
-      have hlt := (enum_unsigned_could w uw h.w_pos hty (fieldBuf direct bb o w)
-        (by rw [fieldBuf_W]; exact placed_w_le_W h) t x ha.1 ha.2).mp hc
-      simp only [View.encode, fieldView, fieldBuf_W, decodeSpec]
-      have hwW := pow_le_pow (placed_w_le_W h)
-      have h0 : 0 ≤ x := ha.1
-      rw [ofInt_of_nonneg h0 (by omega)]
-      exact ⟨by omega, by congr 1; omega⟩
-    | true =>
-      simp only [TypeFits] at hty; subst hty
-      have hW := hs uw rfl
-      simp only [View.encode, fieldView, fieldBuf_W, decodeSpec, ← hW]
-      obtain ⟨he, hlt⟩ := twos_ofInt (by have := h.w_pos; omega) ha.1 ha.2
-      exact ⟨hlt, by rw [he]⟩
-
 /-- **Write then read**: whenever `CouldWriteValue(x)` holds (the view being complete),
 `TryToWrite(x)` succeeds, the buffer stays a well-formed container, and `Read()` then
 returns exactly `x` (and `Ok()` holds).  For signed enums under the side condition of
@@ -231,3 +176,86 @@ example : (fieldView .uint false exBB 9 5).tryToWrite ⟨true, 32⟩ 32 = .refus
   ⟨rfl, rfl⟩
 
 end Emboss.Scalar
+
+/-! ## Write inference (`compiler/front_end/write_inference.py`) -/
+namespace Emboss.WInf
+open Emboss.WInf.Spec
+
+/-- `2 + ((3 - x) - 10)`, the example in the source comment of `_invert_expression`. -/
+def exExpr : Expr :=
+  .bin .add (.const 2) (.bin .sub (.bin .sub (.const 3) (.ref 7)) (.const 10))
+
+/-- **The synthesised inverse is correct, and exists exactly on the documented fragment.**
+(1) If `_invert_expression e` returns `(r, inv)` then `r` is a field reference `x` and for
+every target value `v` (over ℤ): storing `inv[$logical_value := v]` in `x` makes `e` evaluate
+to `v`, whatever the other fields hold; `inv` mentions no field.
+(2) `_invert_expression e` succeeds iff `e` is an ADD/SUB chain over exactly one field
+reference whose other operands are reference-free — it fails exactly outside that fragment. -/
+theorem C03_inverse_correct (e : Expr) :
+    (∀ r inv, invert e = some (r, inv) →
+      refCount inv = 0 ∧
+      ∃ x, r = .ref x ∧ ∀ (env : Nat → Int) (v a : Int), eval env v inv = some a →
+        eval (update env x a) v e = some v) ∧
+    ((∃ x inv, invert e = some (.ref x, inv)) ↔ ∃ x, Invertible e x) := by
+  refine ⟨fun r inv h => ⟨invert_refFree e r inv h, ?_⟩, invert_isSome_iff e⟩
+  obtain ⟨x, hx⟩ := invert_fst_ref e r inv h
+  refine ⟨x, hx, fun env v a hev => ?_⟩
+  obtain ⟨x', hx', heq⟩ := inverse_correct e r inv h env v a hev
+  rw [hx] at hx'; cases hx'; exact heq
+
+-- non-vacuity (tests): the inverse of `2 + ((3 - x) - 10)` is `3 - (($lv - 2) + 10)`;
+-- writing 100 stores -105 and 2 + ((3 - -105) - 10) = 100; `x * 2`, `x + y`, `x - x` fail.
+example : invert exExpr = some (.ref 7,
+    .bin .sub (.const 3) (.bin .add (.bin .sub .logical (.const 2)) (.const 10))) := by decide
+example : eval (fun _ => 0) 100 (.bin .sub (.const 3) (.bin .add (.bin .sub .logical (.const 2)) (.const 10)))
+      = some (-105) ∧ eval (update (fun _ => 0) 7 (-105)) 100 exExpr = some 100 := by decide
+example : invert (.bin .mul (.ref 1) (.const 2)) = none ∧
+    invert (.bin .add (.ref 1) (.ref 2)) = none ∧ invert (.bin .sub (.ref 1) (.ref 1)) = none := by
+  decide
+
+/-- **Transform write**: with the `function_body` produced by `_invert_expression`, a
+successful `TryToWrite(v)` of the generated virtual-field write method leaves in the
+destination the value for which the virtual field reads back `v`; that value was accepted by
+the destination's own `CouldWriteValue` (C03_could_write_iff_representable_*); a failed
+write leaves the destination unchanged. -/
+theorem C03_transform_write (rt body : Expr) (x : Nat) (hinv : invert rt = some (.ref x, body))
+    (valueIsOk : Int → Bool) (d : Dest) (v : Int) (env : Nat → Int) :
+    (∀ d', virtualTryToWrite body valueIsOk d v = (true, d') →
+      eval (update env x d'.value) v rt = some v ∧ d.could d'.value = true ∧
+      valueIsOk v = true ∧ d.complete = true) ∧
+    (∀ d', virtualTryToWrite body valueIsOk d v = (false, d') → d' = d) :=
+  transform_write rt body x hinv valueIsOk d v env
+
+/-- An 8-bit unsigned destination holding 5, complete. -/
+def exDest : Dest := { could := fun u => decide (0 ≤ u ∧ u < 256), complete := true, value := 5 }
+example : (virtualTryToWrite (.bin .sub .logical (.const 100)) (fun _ => true) exDest 130).1 = true ∧
+    (virtualTryToWrite (.bin .sub .logical (.const 100)) (fun _ => true) exDest 130).2.value = 30 ∧
+    (virtualTryToWrite (.bin .sub .logical (.const 100)) (fun _ => true) exDest 99).1 = false := by
+  decide
+
+/-- **Alias write**: a virtual field gets an `alias` write method only when it is exactly a
+reference (without `[requires]`) to a writable field of the structure, and a `transform` only
+with the inverse computed above onto a writable field — so every write through an alias /
+transform chain lands on a physical field.  (In the generated C++ an alias returns the
+target's own view object: writing the alias *is* writing the target.) -/
+theorem C03_alias_write (fields : List Field) (fuel i : Nat) :
+    (∀ x, writeMethod fields (fuel + 1) i = .alias x →
+      fields[i]? = some (.virtual (.ref x) false) ∧ x < fields.length ∧
+      writeMethod fields fuel x ≠ .readOnly ∧ writeMethod fields fuel x ≠ .outOfFuel) ∧
+    (∀ x body, writeMethod fields (fuel + 1) i = .transform x body →
+      ∃ rt rq, fields[i]? = some (.virtual rt rq) ∧ invert rt = some (.ref x, body) ∧
+        x < fields.length ∧ writeMethod fields fuel x ≠ .readOnly ∧
+        writeMethod fields fuel x ≠ .outOfFuel) :=
+  alias_write fields fuel i
+
+-- fields: 0 physical; 1 = alias of 0; 2 = alias of 1; 3 = field 2 + 1; 4 = alias of parameter 9;
+-- 5 = field 0 with [requires] (transform with the identity body)
+def exFields : List Field :=
+  [.physical, .virtual (.ref 0) false, .virtual (.ref 1) false,
+   .virtual (.bin .add (.ref 2) (.const 1)) false, .virtual (.ref 9) false, .virtual (.ref 0) true]
+example : writeMethod exFields 5 2 = .alias 1 ∧
+    writeMethod exFields 5 3 = .transform 2 (.bin .sub .logical (.const 1)) ∧
+    writeMethod exFields 5 4 = .readOnly ∧ writeMethod exFields 5 5 = .transform 0 .logical := by
+  decide
+
+end Emboss.WInf
